@@ -949,6 +949,9 @@ pub fn timeout(rng: &mut Rng) -> Program {
     if !no_timeout {
         a.timeout = Some(t);
         a.fail_on_timeout = g.rng.chance(1, 3);
+    } else {
+        // `fail_on_timeout` without a configured limit is inert: nothing is ever abandoned, however long it takes
+        a.fail_on_timeout = g.rng.chance(1, 2);
     }
     a.cfg_order = g.rng.below(4) as u8;
     // timers on an actor with a handler timeout: an abandoned tick handler must not disturb later ticks
@@ -976,7 +979,7 @@ pub fn timeout(rng: &mut Rng) -> Program {
         let k = g.rng.range(1, 6);
         for _ in 0..k {
             let d = if no_timeout {
-                *g.rng.pick(&[0u64, 1, 8, 50, 200, 1000])
+                *g.rng.pick(&[0u64, 1, 8, 50, 200, 1000, 6000, 20000])
             } else {
                 match g.rng.below(8) {
                     0 => t.saturating_sub(1),
@@ -992,6 +995,10 @@ pub fn timeout(rng: &mut Rng) -> Program {
             } else if g.rng.chance(1, 25) {
                 // asks for its own stop, then outlives (or not) the limit: the request stands either way
                 vec![PStep::CtxStop, PStep::Sleep(d)]
+            } else if g.rng.chance(1, 20) {
+                // arms a timer, then outlives (or not) the limit: the timer stands either way
+                let p = *g.rng.pick(&[5u64, 8, 13]);
+                vec![g.rng.pick(&[PStep::Interval(p), PStep::IntervalWith(p), PStep::DelayedSend(p), PStep::DelayedExec(p)]).clone(), PStep::Sleep(d)]
             } else {
                 vec![PStep::Sleep(d)]
             };
